@@ -22,7 +22,7 @@ LEVEL_NOTE = "Trusted: vlib/twins.py hand expander and vlib/model/refasm.py. Con
 DESIGN_REF = "DESIGN.md §3 C10"
 ASSUMPTIONS = ["labels defined in a branch / iteration are not referenced from outside it"]
 
-PROFILE = progen.Profile(incbin=False, ascii=False, reloc_ram=False, reloc_rom=False, scopes=False, loop_weight=5, if_weight=5, call_weight=2, max_stmts=12, max_depth=4)
+PROFILE = progen.Profile(incbin=False, ascii=False, reloc_ram=False, reloc_rom=False, scopes=True, scope_weight=3, loop_weight=5, if_weight=5, call_weight=2, max_stmts=12, max_depth=4)
 
 
 def selftest() -> None:
